@@ -248,6 +248,11 @@ FLT_CORE = ["f_nan", "f_inf", "f_-inf", "f_-0", "f_tiny", "f_huge", "f_0.3", "f_
 FLT_EXT = ["f_small", "f_17", "f_1e16", "f_max", "f_1e-7", "f_int", "f_neg", "f_1e15"]
 INT_CORE = ["i_0", "i_-1", "i_big"]
 INT_EXT = ["i_min", "i_max"]
+# values whose only effect on a power flow is to amplify solver round-off by >1e10 (loading = i / 3e-11 kA): they are
+# placed in columns that do not enter the calculation, so that the results clause compares like with like
+PF_NEUTRAL_ONLY = ("f_small", "f_tiny")
+PF_NEUTRAL_SLOTS = (("load", "sn_mva"), ("storage", "soc_percent"), ("measurement", "value"), ("poly_cost", "cp1_eur_per_mw"),
+                    ("load", "cust_f"), ("bus", "max_vm_pu"), ("bus_dc", "vn_kv"), ("vsc", "r_ohm"))
 COL_KINDS = ["Int64NA", "booleanNA", "string", "stringNA", "Int64", "boolean", "Float64NA", "category", "datetime", "int32",
              "uint8", "float32", "int64big", "mixed", "bool", "allnan", "allnone", "datecol", "tscol", "intname"]
 
@@ -278,7 +283,8 @@ def menu(level="quick"):
     m.append(["cell", "line", 0, "std_type", "none"])
     # floats in float columns (pf-neutral and pf-relevant) and custom float columns
     for f in flts:
-        m.append(["cell", "line", 0, "max_i_ka", f])
+        if f not in PF_NEUTRAL_ONLY:
+            m.append(["cell", "line", 0, "max_i_ka", f])
         m.append(["cell", "bus", 2, "cust_f", f])
     flt_slots = [("load", 0, "sn_mva"), ("gen", 0, "max_q_mvar"), ("bus", 1, "max_vm_pu"), ("trafo", 0, "pfe_kw"),
                  ("line", 1, "c_nf_per_km"), ("shunt", 0, "q_mvar"), ("ext_grid", 0, "va_degree"), ("storage", 0, "soc_percent"),
@@ -290,6 +296,8 @@ def menu(level="quick"):
     for i, (t, r, c) in enumerate(flt_slots):
         sel = flts if level == "thorough" else [flts[(i * 3 + j) % len(flts)] for j in range(4)]
         for f in sel:
+            if f in PF_NEUTRAL_ONLY and (t, c) not in PF_NEUTRAL_SLOTS:
+                continue
             m.append(["cell", t, r, c, f])
     # ints in int / custom columns
     for iv in ints:
@@ -356,6 +364,15 @@ def menu(level="quick"):
             seen.add(key)
             out.append(d)
     return out
+
+
+MINI = [["cell", "bus", 1, "name", "s_1"], ["cell", "bus", 2, "cust_s", "s_nan"], ["cell", "line", 0, "name", "s_uni"],
+        ["cell", "bus", 2, "cust_s", "none"], ["cell", "line", 0, "max_i_ka", "f_nan"], ["cell", "bus", 2, "cust_f", "f_third"],
+        ["cell", "bus", 3, "cust_f", "f_-0"], ["cell", "load", 0, "sn_mva", "f_huge"], ["cell", "bus", 2, "cust_i", "i_big"],
+        ["cell", "line", 1, "cust_i", "i_-1"], ["col", "bus", "Int64"], ["col", "bus", "booleanNA"], ["col", "line", "stringNA"],
+        ["col", "load", "mixed"], ["attr", "name", "s_1"], ["std", "line", "my_line", "alpha", "f_third"],
+        ["upo", "tolerance_mva", "f_third"], ["ctrl", 1, "vm_set_pu", "f_third"], ["dfdata", "ld0", 1, "f_third"],
+        ["index", "bus", "gap"], ["index", "line", "perm"], ["index", "load", "perm"], ["geo", "bus", 2, "none"], ["results"]]
 
 
 def pairs(menu_):
